@@ -18,7 +18,7 @@ From Coq Require Import Reals ZArith List.
 From Coquelicot Require Import Coquelicot.
 From PV Require Import Num NumR Model_pathlines Proofs_velocity Proofs_pathlines.
 From PV Require Import Model_pathline_session Proofs_pathline_session.
-From PV Require Import Inst_pathlines Proofs_pathline_gen.
+From PV Require Import Inst_velocity Inst_pathlines Proofs_pathline_gen.
 From PV.gen Require Import Gen_velocity Gen_velocity_utils Gen_pathlines.
 Import ListNotations.
 Open Scope R_scope.
@@ -46,13 +46,15 @@ Theorem C18_cell_negative_edge_rejected : forall hl vl (u d : R), d < 0 ->
 Proof. exact cell_negative_edge_rejected. Qed.
 
 (* --- corner flow: the full statement ---------------------------------------------------- *)
-(* all six ordered axis pairs, every plate speed, every point with vertical coordinate < 0
-   outside the excluded box |h|,|v| < 1e-15: the velocity callable is the closed-form field,
+(* all six ordered axis pairs, every plate speed, every point outside the excluded box
+   |h|,|v| < 1e-15 that is not on the half line { h = 0, v >= 0 } (`corner_smooth`: v < 0 or
+   h <> 0 -- this contains the whole physical domain v <= 0, see C18_corner_domain_smooth, incl.
+   every neighbourhood of the corner singularity): the velocity callable is the closed-form field,
    every entry of the gradient callable is the corresponding partial derivative of that
    field, and the gradient is trace-free *)
 Theorem C18_corner_grad_is_jacobian : forall (hl vl : Z) (U t : R) (x : arr R) i j,
   letter_ok hl -> letter_ok vl -> @wrapper_indices NumR 2 hl vl [U] = Ok (i, j) ->
-  ~ corner_hole (x i) (x j) -> x j < 0 ->
+  ~ corner_hole (x i) (x j) -> corner_smooth (x i) (x j) ->
   exists a G, @wrapper_velocity NumR 2 hl vl [U] t x = Ok a /\
               @wrapper_gradient NumR 2 hl vl [U] t x = Ok G /\
     (forall k, (k < 3)%nat -> a k = corner_field i j U x k) /\
@@ -60,6 +62,17 @@ Theorem C18_corner_grad_is_jacobian : forall (hl vl : Z) (U t : R) (x : arr R) i
        is_derive (fun s => corner_field i j U (upd x m s) k) (x m) (G (3 * k + m)%nat)) /\
     G 0%nat + G 4%nat + G 8%nat = 0.
 Proof. exact corner_grad_is_jacobian_proof. Qed.
+
+(* the physical domain (at or below the surface, outside the hole) lies in the smooth region ... *)
+Theorem C18_corner_domain_smooth : forall h v : R, v <= 0 -> ~ corner_hole h v -> corner_smooth h v.
+Proof. exact corner_domain_smooth. Qed.
+
+(* ... and the exclusion of the half line above the surface is necessary: there the velocity callable
+   jumps by more than 3 U across h = 0 (branch cut of atan2), so it has no partial derivative *)
+Theorem C18_corner_cut_refuted : forall U v : R, 0 < v -> 0 < U ->
+  (forall h, h < 0 -> corner_uh U 0 v - corner_uh U h v > 3 * U) /\
+  ~ exists g, is_derive (fun s => corner_uh U s v) 0 g.
+Proof. exact (fun U v Hv HU => conj (fun h => corner_cut_jump U v h Hv HU) (corner_cut_not_derivable U v Hv HU)). Qed.
 
 (* the field IS the velocity callable on its whole domain (needed to read the theorem above
    as a statement about the callable; the field is defined with atan2, as the source is) *)
@@ -398,3 +411,36 @@ Example C18_pathline_nonvacuous :
    List.Forall (good_call toy_gradient3 [-1; -1; -1] [1; 1; 1]) calls /\ backward 0 calls /\
    riemann toy_gradient3 toy_eigmax 0 calls = 3 / 4).
 Proof. exact (conj pathline_hypotheses_satisfiable event_history_hypotheses_satisfiable). Qed.
+
+(* --- the PUBLIC wrappers as GENERATED from the source (all 36 letter pairs "XYZxyz") -------- *)
+(* k_<flow>_wrap_u / _L: the real simple_shear_2d / cell_2d / corner_2d called with the two letters, then
+   the first / second returned callable applied to (t, x).  `fold_case` maps x y z to X Y Z. *)
+Theorem C18_generated_wrappers : forall (hl vl : Z) (p q t : R) (x : arr R), letter6_ok hl -> letter6_ok vl ->
+  let h := fold_case hl in let v := fold_case vl in
+  @k_simple_shear_2d_wrap_u NumR hl vl p t x = @wrapper_velocity NumR 0 h v [p] t x /\
+  @k_simple_shear_2d_wrap_L NumR hl vl p t x = @wrapper_gradient NumR 0 h v [p] t x /\
+  @k_cell_2d_wrap_u NumR hl vl p q t x = @wrapper_velocity NumR 1 h v [p; q] t x /\
+  @k_cell_2d_wrap_L NumR hl vl p q t x = @wrapper_gradient NumR 1 h v [p; q] t x /\
+  @k_cell_2d_wrap_u_default NumR hl vl p t x = @wrapper_velocity NumR 1 h v [p; 2] t x /\
+  @k_cell_2d_wrap_L_default NumR hl vl p t x = @wrapper_gradient NumR 1 h v [p; 2] t x /\
+  @k_corner_2d_wrap_u NumR hl vl p t x = @wrapper_velocity NumR 2 h v [p] t x /\
+  @k_corner_2d_wrap_L NumR hl vl p t x = @wrapper_gradient NumR 2 h v [p] t x.
+Proof. exact gen_wrappers. Qed.
+
+Theorem C18_generated_bad_letter : forall (hl vl : Z) (p q t : R) (x : arr R), ~ letter6_ok hl ->
+  @k_simple_shear_2d_wrap_u NumR hl vl p t x = Err ValueError /\ @k_cell_2d_wrap_u NumR hl vl p q t x = Err ValueError /\
+  @k_corner_2d_wrap_u NumR hl vl p t x = Err ValueError.
+Proof. exact wrap_bad_letter. Qed.
+
+(* the full statement of the property for the corner flow, about the generated public wrappers *)
+Theorem C18_generated_corner_grad_is_jacobian : forall (hl vl : Z) (U t : R) (x : arr R) i j,
+  letter6_ok hl -> letter6_ok vl ->
+  @wrapper_indices NumR 2 (fold_case hl) (fold_case vl) [U] = Ok (i, j) ->
+  ~ corner_hole (x i) (x j) -> corner_smooth (x i) (x j) ->
+  exists a G, @k_corner_2d_wrap_u NumR hl vl U t x = Ok a /\
+              @k_corner_2d_wrap_L NumR hl vl U t x = Ok G /\
+    (forall k, (k < 3)%nat -> a k = corner_field i j U x k) /\
+    (forall k m, (k < 3)%nat -> (m < 3)%nat ->
+       is_derive (fun s => corner_field i j U (upd x m s) k) (x m) (G (3 * k + m)%nat)) /\
+    G 0%nat + G 4%nat + G 8%nat = 0.
+Proof. exact gen_corner_grad_is_jacobian. Qed.
